@@ -26,6 +26,9 @@ type Obligation struct {
 	Trace    []string
 	Result   *SolveResult
 	KnownBad bool
+	// Batch: obligations generated at one program point under one path condition (the frame
+	// obligations of one return) carry the same non-zero id; SolveAll first tries their conjunction.
+	Batch int
 }
 
 func (ex *Exec) oblige(st *State, kind, label string, props []string, goal Term, src string) {
@@ -820,6 +823,14 @@ func (ex *Exec) frameCheck(st *State, env *Env, fc *FuncContract) {
 	}
 	sort.Strings(names)
 	top0 := ex.entry.Top
+	ex.batchN++
+	defer func(from int) {
+		for _, o := range ex.obls[from:] {
+			if o.Result == nil && o.Kind == "frame" {
+				o.Batch = ex.batchN
+			}
+		}
+	}(len(ex.obls))
 	for _, name := range names {
 		cur := st.Heaps[name]
 		old, ok := ex.entry.Heaps[name]
